@@ -212,7 +212,10 @@ impl Scope {
                             //         read_number_of_ext_fields
                             //     )));
                         }
-                        let range = bits.pos()..bits.pos() + *number_of_ext_fields;
+                        // only as many presence flags as were transmitted belong to the bit-field, a
+                        // sender of an older version does not know about the further fields
+                        let range = bits.pos()
+                            ..bits.pos() + read_number_of_ext_fields.min(*number_of_ext_fields);
                         bits.set_pos(range.start + read_number_of_ext_fields); // skip bit-field
                         *self = Scope::AllBitField(range);
                     } else {
